@@ -339,3 +339,68 @@ Proof.
   - induction threads as [|t r IH]; cbn [map forallb is_do andb]; auto.
   - split; auto. rewrite B. destruct threads; reflexivity.
 Qed.
+
+(* ================================================================== 4. lock order *)
+(* the code's discipline, as extracted: a goroutine that waits for w while holding h does so along an edge *)
+Definition follows (edges : list (string * string)) (st : wstate) : Prop :=
+  forall t h w, In h (w_holds st t) -> w_waits st t = Some w -> edge_in edges h w = true.
+
+(* a chain: each thread waits for a lock the next one holds *)
+Fixpoint chained (st : wstate) (c : list (nat * string)) : Prop :=
+  match c with
+  | [] => True
+  | [(t, l)] => w_waits st t = Some l
+  | (t, l) :: (((t', l') :: _) as rest) => w_waits st t = Some l /\ In l (w_holds st t') /\ chained st rest
+  end.
+
+(* a deadlock: a non-empty chain whose last lock is held by the first thread *)
+Definition deadlock (st : wstate) (c : list (nat * string)) : Prop :=
+  match c with
+  | [] => False
+  | (t0, _) :: _ => chained st c /\ In (snd (last c (0%nat, EmptyString))) (w_holds st t0)
+  end.
+
+Section Order.
+Variable edges : list (string * string).
+Variable ranks : list (string * nat).
+Hypothesis Hok : ranks_ok edges ranks = true.
+
+Lemma edge_rank h w : edge_in edges h w = true -> exists a b, rank_of ranks h = Some a /\ rank_of ranks w = Some b /\ (a < b)%nat.
+Proof.
+  unfold edge_in. intros H. apply existsb_exists in H. destruct H as ([h' w'] & Hin & E). cbn [fst snd] in E.
+  apply andb_true_iff in E. destruct E as [E1 E2]. apply String.eqb_eq in E1, E2. subst.
+  unfold ranks_ok in Hok. rewrite forallb_forall in Hok. specialize (Hok _ Hin). cbn [fst snd] in Hok.
+  destruct (rank_of ranks h) as [a|]; [|discriminate]. destruct (rank_of ranks w) as [b|]; [|discriminate].
+  apply Nat.ltb_lt in Hok. eauto.
+Qed.
+
+(* along a chain the ranks of the awaited locks increase *)
+Lemma chain_ranks st : follows edges st -> forall c t l, chained st ((t, l) :: c) ->
+  forall rl, rank_of ranks l = Some rl ->
+  exists rz, rank_of ranks (snd (last ((t, l) :: c) (0%nat, EmptyString))) = Some rz /\ (rl <= rz)%nat.
+Proof.
+  intros Hf c. induction c as [|[t' l'] c IH]; intros t l Hc rl Hr.
+  - cbn [last snd]. exists rl. split; auto.
+  - cbn [chained] in Hc. destruct Hc as (Hw & Hin & Hrest).
+    assert (Hw' : w_waits st t' = Some l').
+    { destruct c as [|[t2 l2] c2]; cbn [chained] in Hrest; [exact Hrest|tauto]. }
+    destruct (edge_rank l l' (Hf t' l l' Hin Hw')) as (a & b & Ea & Eb & Hlt).
+    rewrite Hr in Ea. inversion Ea; subst a.
+    destruct (IH t' l' Hrest b Eb) as (rz & Ez & Hle).
+    exists rz. split; [|lia].
+    change (last ((t, l) :: (t', l') :: c) (0%nat, EmptyString)) with (last ((t', l') :: c) (0%nat, EmptyString)). exact Ez.
+Qed.
+
+(* DEADLOCK FREEDOM w.r.t. the mutexes: if every wait-while-holding follows an edge and the edges admit the numbering,
+   no set of goroutines waits for each other's mutexes in a cycle (a cycle of length one is a double lock) *)
+Theorem no_lock_cycle st c : follows edges st -> ~ deadlock st c.
+Proof.
+  intros Hf Hd. destruct c as [|[t0 l0] c]; [exact Hd|]. destruct Hd as [Hc Hlast].
+  assert (Hw0 : w_waits st t0 = Some l0).
+  { destruct c as [|[t2 l2] c2]; cbn [chained] in Hc; [exact Hc|tauto]. }
+  set (lz := snd (last ((t0, l0) :: c) (0%nat, EmptyString))) in *.
+  destruct (edge_rank lz l0 (Hf t0 lz l0 Hlast Hw0)) as (a & b & Ea & Eb & Hlt).
+  destruct (chain_ranks st Hf c t0 l0 Hc b Eb) as (rz & Ez & Hle).
+  fold lz in Ez. rewrite Ea in Ez. inversion Ez; subst. lia.
+Qed.
+End Order.
